@@ -634,6 +634,14 @@ static void iauth_xquery_config_service(const char *name, const char *type)
     srv->configured = 1;
 }
 
+static void iauth_xquery_services_changed(struct conf_node_base *node);
+
+/* Hooked onto each service entry so that editing one in place is noticed. */
+static void iauth_xquery_service_changed(struct conf_node_base *node)
+{
+    iauth_xquery_services_changed(&node->parent->base);
+}
+
 static void iauth_xquery_services_changed(struct conf_node_base *node)
 {
     struct iauth_xquery_service *srv;
@@ -652,6 +660,8 @@ static void iauth_xquery_services_changed(struct conf_node_base *node)
         for (jj = set_first(&conf.root->contents); jj != NULL; jj = set_next(jj)) {
             struct conf_node_base *base = set_node_data(jj);
 
+            if (!base->hook)
+                base->hook = iauth_xquery_service_changed;
             if (base->type == CONF_STRING) {
                 struct conf_node_string *str = set_node_data(jj);
                 iauth_xquery_config_service(str->base.name, str->value);
